@@ -62,6 +62,7 @@ NEST_PATTERNS = [['pb'], ['pl'], ['ub'], ['ul'], ['pb', 'ul'], ['pl', 'ub'], ['u
 @register
 class C01(Prop):
     pid = 'C01'
+    model_is_spec = False
     def gen(self, seed, tier):
         r = random.Random(seed); g = T(seed, bignum=True, valid=0.8)
         n = budget(tier, 6000, 120000)
@@ -138,6 +139,7 @@ NONCANON_PH = ['a2044101' + '0126', 'a10126', 'a1011826', 'bf0126ff', 'a0', 'a11
 @register
 class C02(Prop):
     pid = 'C02'
+    model_is_spec = False
     def gen(self, seed, tier):
         r = random.Random(seed); g = T(seed, valid=1.0)
         ops = []
